@@ -58,6 +58,15 @@ pub fn classes(snap: &Snapshot, o: Opts) -> Vec<&'static str> {
     if snap.values().any(|n| n.uid != 0 || n.gid != 0) {
         c.push("non_root_owner");
     }
+    if snap.len() > 200 {
+        c.push("more_than_200_entries");
+    }
+    if snap.keys().any(|p| p.rsplit('/').next().map(|n| n.len() >= 250).unwrap_or(false)) {
+        c.push("name_of_250_bytes");
+    }
+    if snap.keys().any(|p| p.matches('/').count() > 25) {
+        c.push("nesting_deeper_than_25");
+    }
     let mut seen = std::collections::HashSet::new();
     if files
         .iter()
@@ -98,6 +107,36 @@ fn one_case(run: &Run, case: u64) {
         spec.insert("/big".into(), tree::Node::file(tree::gen_content(&mut rng, (21 << 20) + 5)));
     }
     let o = if run.tier == Tier::Thorough && case == 0 { Opts::DEFAULT } else { o };
+    // scale and unusual names: every 40th case is a wide, deep tree (hundreds of entries in one
+    // directory, > 100 blocks, 250-byte names, a chain of 30 nested directories)
+    if case % 40 == 7 {
+        let wide = "/wide";
+        spec.insert(wide.into(), tree::Node::dir());
+        let n_files = 150 + rng.below(350) as usize;
+        for i in 0..n_files {
+            let len = if i % 7 == 0 { o.block.min(300) + 1 } else { rng.below(12) as usize };
+            let mut n = tree::Node::file(tree::gen_content(&mut rng, len.min(p.max_plain_size)));
+            n.mtime_s = 1_500_000_000 + i as i64;
+            n.mode = 0o600 + (i as u32 % 0o100);
+            spec.insert(format!("{wide}/f{i:04}"), n);
+        }
+        for i in 0..40 {
+            spec.insert(format!("{wide}/d{i:02}"), tree::Node::dir());
+            spec.insert(format!("{wide}/d{i:02}/x"), tree::Node::file(tree::gen_content(&mut rng, i)));
+        }
+        let long_ascii = "L".repeat(250);
+        let long_multi = "é".repeat(125);
+        for name in [long_ascii.as_str(), long_multi.as_str(), "a\\b", "trailing.", "trailing ", "CON", "~", "-", "..."] {
+            spec.insert(format!("{wide}/{name}"), tree::Node::file(tree::gen_content(&mut rng, 3)));
+        }
+        let mut deep = String::from("/deep");
+        spec.insert(deep.clone(), tree::Node::dir());
+        for i in 0..30 {
+            deep = format!("{deep}/n{i}");
+            spec.insert(deep.clone(), tree::Node::dir());
+        }
+        spec.insert(format!("{deep}/bottom"), tree::Node::file(tree::gen_content(&mut rng, 10)));
+    }
     let sc = Scratch::new("c01");
     let src = sc.join("src");
     tree::sync_to_disk(None, &spec, &src).expect("materialise");
@@ -177,7 +216,7 @@ pub fn run(tier: Tier, replay: Option<Value>) -> i32 {
     let n = tier.pick(3000, 200000);
     run.par_cases(n, super::threads(), |case| one_case(&run, case));
     run.finish(
-        "seeded generated trees (depth<=4; names with leading dots, bytes below/above '/', multi-byte; file sizes at 0/1/cap±1/block±1/2·block/3·block+7; duplicate and prefix contents; modes cycling through 0..0o7777; mtimes from {-2^31..2^33}s x {0,1,5e8,999999999,random}ns on files, dirs and symlinks; dangling/absolute/.. symlinks; named owners) x option sets drawn from all 216 combinations; backup must be Ok with no error reported, restore into an empty directory must be Ok with no error and the lstat/readlink/read snapshot of the result must equal that of the source (bytes, kind, target, mtime ns incl. directories and root, mode&0o7777, uid/gid as root). Non-trivial = has a multi-block file, a combined block of >=2 files, a special mode bit, a pre-epoch or sub-second mtime, or a non-ASCII name; distinct by (tree signature, options).",
+        "seeded generated trees (depth<=4; names with leading dots, bytes below/above '/', multi-byte; file sizes at 0/1/cap±1/block±1/2·block/3·block+7; duplicate and prefix contents; modes cycling through 0..0o7777; mtimes from {-2^31..2^33}s x {0,1,5e8,999999999,random}ns on files, dirs and symlinks; dangling/absolute/.. symlinks; named owners; every 40th case additionally a wide and deep tree: 150-500 files and 40 subdirectories in one directory, names of 250 bytes, a chain of 30 nested directories) x option sets drawn from all 216 combinations; backup must be Ok with no error reported, restore into an empty directory must be Ok with no error and the lstat/readlink/read snapshot of the result must equal that of the source (bytes, kind, target, mtime ns incl. directories and root, mode&0o7777, uid/gid as root). Non-trivial = has a multi-block file, a combined block of >=2 files, a special mode bit, a pre-epoch or sub-second mtime, or a non-ASCII name; distinct by (tree signature, options).",
         &[
             "expected values are the snapshot of what the file system actually holds (tmpfs /dev/shm)",
             "release profile, debug assertions off",
